@@ -536,6 +536,17 @@ Proof.
   intros Hc; unfold phaseFinish, phaseLitBlock in Hc; discriminate.
 Qed.
 
+(* lia after dropping the equalities between boolean fields (they make zify explode) *)
+Ltac blia :=
+  repeat match goal with
+  | H : @eq bool (haveBits _) _ |- _ => clear H
+  | H : @eq bool (eof _) _ |- _ => clear H
+  | H : @eq bool (inputNil _) _ |- _ => clear H
+  | H : @eq bool _ (negb _) |- _ => clear H
+  | H : @eq bool (orb (isError _) _) _ |- _ => clear H
+  | H : @eq bool (isError _) _ |- _ => clear H
+  end; lia.
+
 Lemma step_out_spec : LongCodesFit -> HeaderRestartMonotone -> forall f,
   ready f ->
   let f' := fst (step_out f) in
@@ -549,7 +560,7 @@ Proof.
   unfold step_out.
   (* the window slide *)
   set (wp1 := if historySize * 2 <=? writePos f then historySize else writePos f).
-  assert (Hwp1 : wp1 < outLen) by (unfold wp1, historySize, outLen; destruct (32768 * 2 <=? writePos f) eqn:E; lia).
+  assert (Hwp1 : wp1 < outLen) by (unfold wp1, historySize, outLen; destruct (32768 * 2 <=? writePos f) eqn:E; blia).
   set (h1 := if historySize * 2 <=? writePos f
              then forN 0 historySize (fun i h => aset h i (aget h (writePos f - historySize + i))) (hist f)
              else hist f).
@@ -565,8 +576,8 @@ Proof.
   assert (Hm : (hmeasure (state f2) <= 8 * Z.of_N BUFMAX + 64 + 8 * 328)%Z).
   { unfold f2; cbn [state]. unfold hmeasure, avail. unfold owed in Rowed.
     destruct Rbuf as (_ & Rb2 & _).
-    assert (0 <= r_len (rd (state f)) / 8)%Z by (apply Z.div_pos; lia). lia. }
-  pose proof (decomperss_spec HLF HRM f2 Rinf Rrun ltac:(unfold f2; cbn [writePos]; lia) Hm) as DS.
+    assert (0 <= r_len (rd (state f)) / 8)%Z by (apply Z.div_pos; blia). blia. }
+  pose proof (decomperss_spec HLF HRM f2 Rinf Rrun ltac:(unfold f2; cbn [writePos]; blia) Hm) as DS.
   cbv zeta in DS.
   destruct (decomperss f2) as [f3 e] eqn:ED. cbn [fst snd] in DS.
   destruct DS as (D1 & D2 & D3 & D4 & D5 & D6 & D7 & D8 & D9 & D10 & D11 & D12 & D13 & D14 & D15 & D16 & D17).
@@ -614,7 +625,7 @@ Proof.
   destruct (D3 Hise) as (G1 & G2 & G3).
   assert (Hrl3 : (0 <= r_len (rd (state f3)))%Z) by (destruct G1 as (_ & A & _); exact A).
   assert (Howed5 : (owed (state f5) <= Z.of_N (peekSize f5))%Z).
-  { unfold owed. rewrite F5rd, F5pk. unfold owed in G3, Rowed. lia. }
+  { unfold owed. rewrite F5rd, F5pk. unfold owed in G3, Rowed. blia. }
   set (f6 := if phase (state f5) =? phaseStreamEnd
              then set_state f5 (set_phase (state f5) phaseFinish) else f5).
   set (ret := if phase (state f5) =? phaseStreamEnd then Some REOF else @None rres).
@@ -625,7 +636,7 @@ Proof.
   assert (He3 : e = ENone \/ e = EOutputOverflow \/ e = EEndInput).
   { destruct e; cbn in Hise; try discriminate; try tauto. }
   assert (Hret : ret = None -> phase (state f5) <> phaseStreamEnd).
-  { unfold ret. destruct (phase (state f5) =? phaseStreamEnd) eqn:E; [discriminate|]. intros _; lia. }
+  { unfold ret. destruct (phase (state f5) =? phaseStreamEnd) eqn:E; [discriminate|]. intros _; blia. }
   assert (F6 : rd (state f6) = rd (state f3) /\ rBuf f6 = rBuf f5 /\ peekSize f6 = peekSize f5 /\
                derr f6 = derr f5 /\ writePos f6 = writePos f3 /\ readPos f6 = wp1 /\
                haveBits f6 = haveBits f5 /\ eof f6 = eof f5 /\ inputNil (state f6) = false /\
@@ -636,10 +647,10 @@ Proof.
       split; [exact F5rd|]. do 3 (split; [reflexivity|]). split; [exact F5wp|]. split; [exact F5rp|].
       do 2 (split; [reflexivity|]). split; [exact F5nil|].
       split; [apply (inf_inv_finish_phase (state f5)); [apply F5inf; exact G1|apply N.eqb_eq; exact E]|].
-      split; [unfold phaseFinish; lia|left; reflexivity].
+      split; [unfold phaseFinish; blia|left; reflexivity].
     - split; [exact F5rd|]. do 3 (split; [reflexivity|]). split; [exact F5wp|]. split; [exact F5rp|].
       do 2 (split; [reflexivity|]). split; [exact F5nil|]. split; [apply F5inf; exact G1|].
-      rewrite F5ph. unfold phase_run in G2. split; [lia|right; reflexivity]. }
+      rewrite F5ph. unfold phase_run in G2. split; [blia|right; reflexivity]. }
   destruct F6 as (K1 & K2 & K3 & K4 & K5 & K6 & K7 & K8 & K9 & K10 & K11 & K12).
   assert (Hexp : forall (X : decompressor * option rres),
      X = (if (r_inlen (rd (state f6)) =? 0) || (phase (state f6) =? phaseFinish)
@@ -674,7 +685,7 @@ Proof.
       assert (HeE : e = EEndInput).
       { destruct He3 as [->|[->| ->]]; [| |reflexivity].
         - exfalso. apply (Hret Hr). rewrite F5ph. apply D6. reflexivity.
-        - exfalso. specialize (D5 eq_refl). lia. }
+        - exfalso. specialize (D5 eq_refl). blia. }
       subst e. cbn [isError ierr_eqb orb andb] in Eerr.
       split; [|rewrite <- F5eof; exact Eerr].
       unfold hungry. rewrite SD2. cbn [inputNil set_inputNil state].
@@ -694,8 +705,207 @@ Proof.
       intros Hq. rewrite K5, K6 in Hq. exfalso.
       destruct He3 as [->|[->| ->]].
       + apply (Hret Hr). rewrite F5ph. apply D6. reflexivity.
-      + specialize (D5 eq_refl). lia.
-      + specialize (D7 eq_refl). rewrite K1 in Ecnd. lia. }
+      + specialize (D5 eq_refl). blia.
+      + specialize (D7 eq_refl). rewrite K1 in Ecnd. blia. }
   rewrite Hfr. cbv beta iota zeta.
   destruct e; try (exfalso; tauto); try (cbn in Hise; discriminate); apply Hexp; reflexivity.
 Qed.
+
+(* ---------------------------------------------------------------- step *)
+Lemma step_spec : LongCodesFit -> HeaderRestartMonotone -> forall f,
+  d_inv f ->
+  let f' := fst (step f) in
+  let r := snd (step f) in
+  r <> Some RPanic /\ r <> Some RStuck /\ derr f' = derr f /\
+  (r = None ->
+     d_inv f' /\ srcT f' <= srcT f /\
+     (writePos f' <= readPos f' -> hungry f' /\ (hungry f -> srcT f' < srcT f))).
+Proof.
+  intros HLF HRM f Hd. rewrite step_eq.
+  destruct (phase (state f) =? phaseFinish) eqn:Efin.
+  { cbn [fst snd]. split; [discriminate|]. split; [discriminate|]. split; [reflexivity|]. intros Hc; discriminate. }
+  assert (Hnf : phase (state f) <> phaseFinish) by lia.
+  pose proof (step_in_spec f Hd Hnf) as SI. cbv zeta in SI.
+  destruct (step_in f) as [f1 [e1|]] eqn:E1; cbn [fst snd] in SI.
+  { destruct SI as (A1 & A2 & _). cbn [fst snd].
+    split; [exact A1|]. split; [exact A2|].
+    split; [|intros Hc; discriminate].
+    (* derr is not touched by step_in *)
+    unfold step_in in E1.
+    destruct (inputNil (state f)); [|inversion E1].
+    destruct (r_len (rd (state f)) <? 0)%Z; [inversion E1; reflexivity|].
+    cbv zeta in E1.
+    destruct ((bBuffered _ <=? _) && negb _) in E1.
+    - destruct (bPeek _ _) as [[[[? ?] [[| | |]|]] ?]|] in E1; cbn [fst snd] in E1;
+        try (inversion E1; reflexivity);
+        (destruct (bPeek _ _) as [[[[? ?] ?] ?]|] in E1; [destruct (_ <? _) in E1|]; inversion E1; reflexivity).
+    - destruct (bPeek _ _) as [[[[? ?] ?] ?]|] in E1; [destruct (_ <? _) in E1|]; inversion E1; reflexivity. }
+  destruct SI as (_ & _ & SI). specialize (SI eq_refl).
+  destruct SI as (Hready & W1 & W2 & W3 & W4 & W5 & W6 & W7).
+  pose proof (step_out_spec HLF HRM f1 Hready) as SO. cbv zeta in SO.
+  destruct (step_out f1) as [f2 r2] eqn:E2; cbn [fst snd] in SO |- *.
+  destruct SO as (O1 & O2 & O3 & O4).
+  split; [exact O1|]. split; [exact O2|]. split; [congruence|].
+  intros Hr. destruct (O4 Hr) as (P1 & P2 & P3).
+  split; [exact P1|]. split; [lia|].
+  intros Hq. destruct (P3 Hq) as (Q1 & Q2). split; [exact Q1|].
+  intros Hh. destruct (W7 Hh) as [Hc|Hc]; [lia|congruence].
+Qed.
+
+(* ---------------------------------------------------------------- Read *)
+Lemma hungry_dec : forall f, {hungry f} + {~ hungry f}.
+Proof.
+  intros f. unfold hungry.
+  destruct (inputNil (state f)); [|right; intros (Hc & _); discriminate].
+  destruct (haveBits f); [right; intros (_ & Hc & _); discriminate|].
+  destruct (Z_le_dec (Z.of_N (blen (rBuf f))) (r_len (rd (state f)) / 8)) as [Hl|Hl].
+  - left. repeat split; assumption.
+  - right. intros (_ & _ & Hc). contradiction.
+Qed.
+
+(* what is known of the Reader between two Read calls; T bounds the source bytes left *)
+Definition r_inv (T : N) (f : decompressor) : Prop :=
+  (derr f = None -> d_inv f /\ srcT f <= T) /\
+  (forall e, derr f = Some e -> e <> RPanic /\ e <> RStuck).
+
+Definition rmeasure (f : decompressor) : N :=
+  match derr f with
+  | Some _ => 0
+  | None => srcT f + (if hungry_dec f then 0 else 1) + 1
+  end.
+
+Definition res_ok (r : rres) : Prop := r <> RPanic /\ r <> RStuck.
+
+Lemma d_inv_readPos : forall f rp,
+  d_inv f -> d_inv (mkD (state f) (writePos f) rp (hist f) (rBuf f) (derr f) (peekSize f) (eof f) (haveBits f)).
+Proof. intros f rp H. exact H. Qed.
+
+Lemma read_loop_deliver : forall k T f plen,
+  r_inv T f -> readPos f < writePos f -> (0 < k)%nat ->
+  res_ok (snd (read_loop k f plen)) /\ r_inv T (fst (fst (read_loop k f plen))).
+Proof.
+  intros k T f plen Hinv Hrw Hk. destruct k as [|k]; [lia|]. cbn [read_loop].
+  replace (readPos f <? writePos f) with true by lia.
+  set (num := N.min plen (writePos f - readPos f)).
+  cbn [writePos readPos derr].
+  assert (Hinv' : r_inv T (mkD (state f) (writePos f) (readPos f + num) (hist f) (rBuf f) (derr f)
+                               (peekSize f) (eof f) (haveBits f))).
+  { destruct Hinv as (A & B). split; [intros Hc; cbn [derr] in Hc; exact (A Hc)|exact B]. }
+  destruct (writePos f =? readPos f + num) eqn:Eq; cbn [fst snd].
+  - split; [|exact Hinv']. destruct (derr f) as [e|] eqn:Ed.
+    + destruct Hinv as (_ & B). apply B. exact Ed.
+    + split; discriminate.
+  - split; [split; discriminate|exact Hinv'].
+Qed.
+
+Lemma read_loop_spec : LongCodesFit -> HeaderRestartMonotone -> forall fuel T f plen,
+  r_inv T f -> rmeasure f < N.of_nat fuel ->
+  res_ok (snd (read_loop fuel f plen)) /\ r_inv T (fst (fst (read_loop fuel f plen))).
+Proof.
+  intros HLF HRM. induction fuel as [|k IH]; intros T f plen Hinv Hm; [lia|].
+  destruct (readPos f <? writePos f) eqn:Erw.
+  { apply read_loop_deliver; [exact Hinv|lia|lia]. }
+  cbn [read_loop]. rewrite Erw.
+  destruct (derr f) as [e|] eqn:Ed.
+  { cbn [fst snd]. split; [|exact Hinv]. destruct Hinv as (_ & B). apply B. exact Ed. }
+  destruct Hinv as (A & B). destruct (A Ed) as (Hd & HT).
+  pose proof (step_spec HLF HRM f Hd) as SS. cbv zeta in SS.
+  destruct (step f) as [f1 e1] eqn:ES. cbn [fst snd] in SS.
+  destruct SS as (S1 & S2 & S3 & S4).
+  assert (Hk : (0 < k)%nat) by (unfold rmeasure in Hm; rewrite Ed in Hm; lia).
+  destruct e1 as [e'|].
+  - (* step ended with an error *)
+    assert (He' : e' <> RPanic /\ e' <> RStuck) by (split; intros Hc; subst e'; [apply S1|apply S2]; reflexivity).
+    assert (Hinv1 : r_inv T (set_err f1 (Some e'))).
+    { split; [intros Hc; discriminate|]. intros e0 He0. cbn [set_err derr] in He0. inversion He0; subst e0. exact He'. }
+    cbn [set_err writePos readPos].
+    destruct (writePos f1 <=? readPos f1) eqn:Ew; cbn [fst snd].
+    + split; [exact He'|exact Hinv1].
+    + apply (read_loop_deliver k T (set_err f1 (Some e')) plen Hinv1); [cbn [set_err readPos writePos]; lia|exact Hk].
+  - (* step went through *)
+    destruct (S4 eq_refl) as (Hd1 & Hs1 & Hq).
+    assert (Hinv1 : r_inv T (set_err f1 None)).
+    { split; [intros _; split; [exact Hd1|unfold srcT in *; cbn [set_err rBuf]; lia]|].
+      intros e0 He0. cbn [set_err derr] in He0. discriminate. }
+    destruct (N.leb_spec (writePos f1) (readPos f1)) as [Hle|Hgt].
+    + apply IH; [exact Hinv1|].
+      unfold rmeasure in Hm |- *. rewrite Ed in Hm. cbn [set_err derr].
+      destruct (Hq Hle) as (Hh1 & Hprog).
+      assert (Hh1' : hungry (set_err f1 None)) by exact Hh1.
+      destruct (hungry_dec (set_err f1 None)) as [_|Hc]; [|contradiction].
+      unfold srcT in *. cbn [set_err rBuf].
+      destruct (hungry_dec f) as [Hh|Hh]; [specialize (Hprog Hh); lia|lia].
+    + apply (read_loop_deliver k T (set_err f1 None) plen Hinv1); [cbn [set_err readPos writePos]; lia|exact Hk].
+Qed.
+
+(* Read never panics, never gets stuck *)
+Lemma big_fuel_N : N.of_nat big_fuel = 262144.
+Proof. unfold big_fuel. lia. Qed.
+
+Lemma dRead_spec : LongCodesFit -> HeaderRestartMonotone -> forall T f plen,
+  r_inv T f -> T + 3 <= 262144 ->
+  res_ok (snd (dRead f plen)) /\ r_inv T (fst (fst (dRead f plen))).
+Proof.
+  intros HLF HRM T f plen Hinv HT. unfold dRead. apply read_loop_spec; auto.
+  rewrite big_fuel_N. unfold rmeasure. destruct (derr f) eqn:Ed; [lia|].
+  destruct Hinv as (A & _). destruct (A Ed) as (_ & Hs). destruct (hungry_dec f); lia.
+Qed.
+
+(* ---------------------------------------------------------------- the run of Read calls *)
+Lemma frev_Forall : forall A (P : A -> Prop) (l : list A), Forall P l -> Forall P (frev l).
+Proof.
+  intros A P l H. unfold frev. rewrite rev_append_rev, app_nil_r. apply Forall_rev. exact H.
+Qed.
+
+Lemma erun_loop_spec : LongCodesFit -> HeaderRestartMonotone -> forall T reads f acc,
+  r_inv T f -> T + 3 <= 262144 ->
+  Forall (fun br : list N * rres => res_ok (snd br)) acc ->
+  Forall (fun br : list N * rres => res_ok (snd br)) (fst (erun_loop f reads acc)).
+Proof.
+  intros HLF HRM T reads. induction reads as [|p rest IH]; intros f acc Hinv HT Hacc; cbn [erun_loop].
+  - cbn [fst]. apply frev_Forall. exact Hacc.
+  - destruct (dRead_spec HLF HRM T f p Hinv HT) as (R1 & R2).
+    destruct (dRead f p) as [[f1 bytes] r] eqn:ER. cbn [fst snd] in R1, R2.
+    assert (Hacc1 : Forall (fun br : list N * rres => res_ok (snd br)) ((bytes, r) :: acc)).
+    { constructor; [exact R1|exact Hacc]. }
+    destruct r; try (cbn [fst]; apply frev_Forall; exact Hacc1).
+    apply IH; assumption.
+Qed.
+
+Lemma newReader_inv : forall bufsize cs t,
+  bufsize <= BUFMAX -> r_inv (src_total cs) (newReader bufsize cs t).
+Proof.
+  intros bufsize cs t Hb. unfold r_inv, newReader. cbn [derr].
+  split; [intros _|intros e Hc; discriminate].
+  split; [|unfold srcT; cbn [rBuf chunks]; lia].
+  unfold d_inv. cbn [state rBuf peekSize].
+  split.
+  { unfold inf_inv, inflate0. cbn [rd dyn tb headerBuffered headerBuffer phase].
+    split; [unfold br_inv, br0; cbn; split; [reflexivity|split; [lia|intros; reflexivity]]|].
+    split; [unfold br0; cbn; lia|].
+    split; [unfold clc_ok, dyn0; cbn [clcShort]; apply all_entries_empty; exact clc_entry_ok_0|].
+    split; [exact tabs_ok2_empty|]. split; [reflexivity|]. split; [lia|].
+    split; [intros Hc; unfold phaseDecodingHeader in Hc; discriminate|].
+    split; [intros _; reflexivity|intros Hc; unfold phaseLitBlock in Hc; discriminate]. }
+  split; [unfold inflate0; cbn [phase]; lia|].
+  split; [unfold buf_inv; cbn [blen bbuf bsize length]; split; [reflexivity|split; lia]|].
+  split; [unfold berr_ok; cbn [berr]; discriminate|].
+  cbn [bsize]. split; [lia|]. split; [unfold BUFMAX in *; lia|].
+  split; [intros _; unfold inflate0, br0; cbn [rd r_len blen]; reflexivity|].
+  intros Hc. unfold inflate0 in Hc. cbn [inputNil] in Hc. discriminate.
+Qed.
+
+(* ================================================================ main theorem *)
+Theorem erun_no_panic :
+  LongCodesFit -> HeaderRestartMonotone ->
+  forall bufsize chunks term reads,
+    bufsize <= 90000 -> src_total chunks <= 262141 ->
+    Forall (fun br => snd br <> RPanic /\ snd br <> RStuck) (erun bufsize chunks term reads).
+Proof.
+  intros HLF HRM bufsize cs t reads Hb Hs. unfold erun, erun_ext.
+  pose proof (erun_loop_spec HLF HRM (src_total cs) reads (newReader bufsize cs t) []
+                (newReader_inv bufsize cs t Hb) ltac:(lia) (Forall_nil _)) as H.
+  destruct (erun_loop (newReader bufsize cs t) reads []) as [l f]. cbn [fst] in *. exact H.
+Qed.
+
+Print Assumptions erun_no_panic.
